@@ -7,7 +7,7 @@ import (
 
 // Remote describes the client's address as the server sees it.
 type Remote struct {
-	Kind string // "tcp", "udp", "ip", "unix", "pipe", "nil"
+	Kind string // "tcp", "tcp16" (TCP address whose IPv4 address is held in 16-byte form), "udp", "ip", "unix", "pipe", "nil"
 	Addr string // textual IP (tcp/udp/ip), path (unix)
 	Port int
 }
@@ -29,7 +29,7 @@ func (r Remote) String() string {
 // block; malformed entries are skipped rather than poisoning the list) because the property only
 // constrains acceptances: "accepted => allowed by this matcher".
 func SourceAddressAllows(remote Remote, list string) bool {
-	if remote.Kind != "tcp" {
+	if remote.Kind != "tcp" && remote.Kind != "tcp16" {
 		return false
 	}
 	ra, err := netip.ParseAddr(remote.Addr)
@@ -58,6 +58,22 @@ func SourceAddressAllows(remote Remote, list string) bool {
 				return true
 			}
 		}
+	}
+	return false
+}
+
+// SourceAddressMalformed reports whether the list has an entry that is neither
+// an IP address nor a CIDR block (an implementation may refuse the whole list
+// because of it).
+func SourceAddressMalformed(list string) bool {
+	for _, ent := range strings.Split(list, ",") {
+		if a, err := netip.ParseAddr(ent); err == nil && a.Zone() == "" {
+			continue
+		}
+		if _, err := netip.ParsePrefix(ent); err == nil {
+			continue
+		}
+		return true
 	}
 	return false
 }
